@@ -372,7 +372,10 @@ class Project:
         The name of the path (minus its extension) should be a valid SPDX
         License Identifier.
         """
-        if not path.suffix:
+        # A file whose whole name is an SPDX License Identifier (Python-2.0.1,
+        # OLDAP-2.0.1) has no file extension, even if the part before the last
+        # dot happens to be an identifier as well.
+        if not path.suffix or path.name in self.license_map:
             raise SpdxIdentifierNotFoundError(f"{path} has no file extension")
         if path.stem in self.license_map:
             return path.stem
